@@ -38,7 +38,8 @@ def classify(peers, ro, shares, held, result):
     return out
 
 
-SERVER_KINDS = ["rw", "rw", "rw", "ro", "full", "fits-one", "fits-one-plus-1", "allocate-always-fails"]
+SERVER_KINDS = ["rw", "rw", "rw", "ro", "full", "fits-one", "fits-one-plus-1", "allocate-always-fails",
+                "every-request-fails"]
 
 
 def upload_part(ck):
@@ -52,7 +53,7 @@ def upload_part(ck):
     from vf import imm
     from allmydata import uri
     from allmydata.interfaces import UploadUnhappinessError, NoServersError
-    want = 250 if ck.tier == "quick" else 700
+    want = 340 if ck.tier == "quick" else 800
     j = 0
     done = 0
     while done < want and not (done >= 60 and ck.out_of_time()):
@@ -92,7 +93,7 @@ def upload_part(ck):
             # directed: exactly `happy` (or one fewer) usable servers, the others unusable
             usable = set(rng.sample(range(nservers), happy if mode < .4 else happy - 1))
             kinds = [rng.choice(["rw", "fits-one", "fits-one-plus-1"]) if s in usable
-                     else rng.choice(["ro", "full", "allocate-always-fails"]) for s in range(nservers)]
+                     else rng.choice(["ro", "full", "allocate-always-fails", "every-request-fails"]) for s in range(nservers)]
         if os.environ.get("VF_C07_ONLY_RW_AND_REFUSING"):
             kinds = [("allocate-always-fails" if kk == "allocate-always-fails" else "rw") for kk in kinds]
             if "allocate-always-fails" not in kinds and len(kinds) > 1:
@@ -100,8 +101,12 @@ def upload_part(ck):
         elif rng.random() < .3:
             # refusing servers next to unlimited ones only
             kinds = [("rw" if kk.startswith("fits-one") else kk) for kk in kinds]
-            if "allocate-always-fails" not in kinds and len(kinds) > 1:
-                kinds[rng.randrange(len(kinds))] = "allocate-always-fails"
+            if "allocate-always-fails" not in kinds and "every-request-fails" not in kinds and len(kinds) > 1:
+                kinds[rng.randrange(len(kinds))] = rng.choice(["allocate-always-fails", "every-request-fails"])
+            while kinds.count("allocate-always-fails") + kinds.count("every-request-fails") > 1 and rng.random() < .7:
+                # mostly exactly one misbehaving server (two or more is the known-finding class)
+                j2 = [x for x, kk in enumerate(kinds) if kk in ("allocate-always-fails", "every-request-fails")][0]
+                kinds[j2] = "rw"
         dens = rng.choice([0, 0, .2, .5])
         held = {s: sorted(h for h in range(n) if rng.random() < dens) for s in range(nservers)}
         g = VGrid(nservers=nservers, seed=rng.getrandbits(32), profile=rng.choice(["fifo", "per-server-fifo", "free"]),
@@ -123,11 +128,21 @@ def upload_part(ck):
                         vs.set_available_space(S + 1)
                     elif kinds[s] == "allocate-always-fails":
                         vs.add_fault("raise", method="allocate_buckets")
+                    elif kinds[s] == "every-request-fails":
+                        vs.add_fault("raise")
                 c = g.make_client(k=k, happy=happy, n=n, max_segment_size=segsize)
                 st, res = g.wait(c.upload(imm.FixedKeyData(data, key)))
                 writable = [s for s in range(nservers) if kinds[s] in ("rw", "fits-one", "fits-one-plus-1")]
-                edges = {s: (list(range(n)) if s in writable else held[s]) for s in range(nservers)}
+                # lower bound (must not be declared unhappy): a misbehaving server contributes nothing;
+                # upper bound (must not succeed beyond it): a server that only refuses allocations still shows the
+                # shares it holds to the survey
+                edges = {s: (list(range(n)) if s in writable else
+                             [] if kinds[s] in ("allocate-always-fails", "every-request-fails") else held[s])
+                         for s in range(nservers)}
                 reachable = max_matching(edges)
+                edges_hi = {s: (list(range(n)) if s in writable else
+                                [] if kinds[s] == "every-request-fails" else held[s]) for s in range(nservers)}
+                reachable_hi = max_matching(edges_hi)
                 w = dict(case=j, k=k, n=n, happy=happy, kinds=kinds, held=held, allocated_size=S, reachable_happiness=reachable,
                          status=st, error=(res.type.__name__ + ": " + str(res.value)[:300]) if st == "err" else None)
                 ck.mon("upload-happy-when-reachable")
@@ -136,9 +151,11 @@ def upload_part(ck):
                     if any(kinds[s] in ("fits-one", "fits-one-plus-1") for s in writable):
                         ck.hit("reachable-with-a-server-that-fits-exactly-one-share")
                     limited = any(kk.startswith("fits-one") for kk in kinds)
-                    nref = kinds.count("allocate-always-fails")
+                    nref = kinds.count("allocate-always-fails") + kinds.count("every-request-fails")
                     if st == "err" and res.check(UploadUnhappinessError, NoServersError):
                         feat = ("two-or-more-servers-refuse-every-allocation" if nref >= 2 else
+                                "one-server-fails-every-request" if nref == 1 and not limited
+                                and "every-request-fails" in kinds else
                                 "one-refusing-server-next-to-servers-with-room-for-one-share" if nref == 1 and limited else
                                 "one-server-refuses-every-allocation" if nref == 1 else
                                 "servers-with-room-for-exactly-one-share" if limited else "plain")
@@ -151,16 +168,25 @@ def upload_part(ck):
                         ck.violation("upload-declared-unhappy-although-a-happy-layout-was-reachable/" + feat,
                                      "happy=%d is reachable (maximum matching %d over servers %s, pre-existing shares %s) yet the "
                                      "upload failed: %s" % (happy, reachable, kinds, held, w["error"]), w)
+                    elif st == "err" and nref == 1 and not limited and "every-request-fails" in kinds:
+                        # a server that fails every request is dropped at the survey; nothing else can go wrong here
+                        ck.violation("upload-failed-although-a-happy-layout-was-reachable/one-server-fails-every-request",
+                                     "happy=%d is reachable with the servers that work (%s), one server fails every request, "
+                                     "yet the upload failed: %s" % (happy, kinds, w["error"]), w)
                     elif st == "err":
                         ck.observe("upload-failed-otherwise-although-reachable:" + res.type.__name__)
                     elif st != "ok":
                         ck.observe("upload-did-not-complete:" + st)
                     else:
                         ck.hit("upload-succeeded")
+                        # (what ends up stored may be fewer than N share numbers: the uploader proceeds once the
+                        # threshold is met; the statement's completeness clause is about the planned placement)
                         if nref == 1 and not limited:
                             ck.hit("upload-succeeded-around-one-refusing-server")
                         if limited and not nref:
                             ck.hit("upload-succeeded-with-servers-that-fit-exactly-one-share")
+                elif reachable_hi >= happy:
+                    ck.skip("reachable-only-with-shares-held-by-a-server-that-refuses-allocations")
                 else:
                     ck.hit("happy-layout-unreachable")
                     if st == "ok":
